@@ -109,6 +109,20 @@ func init() {
 		}
 		return scs
 	}
+	// a state whose free list spans several pages
+	hx.Registry["c01-bigfree"] = func(tier string) []*hx.Scope {
+		n := 4
+		cs := []apix.Cfg{{PageSize: 1024, Freelist: "array"}, {PageSize: 1024, Freelist: "hashmap"}}
+		if tier == "thorough" {
+			n = 5
+			cs = append(cs, apix.Cfg{PageSize: 1024, Freelist: "array", NoGrowSync: true})
+		}
+		scs := mk("c01-bigfree", []string{"bigfree"}, cs, n, 0, flatAlphabet([]string{"a"}, []string{"s", "X"}, false), crashBoundary(0))
+		for _, s := range scs {
+			s.Setup = crashSetup
+		}
+		return scs
+	}
 	hx.Registry["c01-nested"] = func(tier string) []*hx.Scope {
 		n, depth := 4, 2
 		if tier == "thorough" {
@@ -142,7 +156,7 @@ func init() {
 // C01: commits are atomic and durable across a crash at any point.
 func C01(tier string) int {
 	return RunHX(HXCheck{
-		Prop: "C01", Level: "fault_enumeration", Scopes: []string{"c01-flat", "c01-nested", "c01-life"},
+		Prop: "C01", Level: "fault_enumeration", Scopes: []string{"c01-flat", "c01-bigfree", "c01-nested", "c01-life"},
 		Rule: "for every program of the explicit-state exploration (all programs within the bound from each seed state/configuration: puts, deletes, large values, macro fills that grow the file, nested bucket create/delete/move, open readers, reopenings) and for its last commit: the I/O log of the real commit is split into sync epochs; for every epoch every subset of the unsynced operations (exhaustive up to 6 operations, otherwise all subsets dropping or keeping at most 2), every sector prefix/suffix/single sector of each write, every sector subset of the meta write and (for every n-th commit) every contiguous byte range of the meta structure are turned into a crash image; each distinct image is recovered by the real Open under the same and under the opposite freelist configuration and must yield the last acknowledged state, or the in-flight state iff the independent decoder finds its meta complete, pass Tx.Check and page accounting, and accept a follow-up commit. distinct_nontrivial = distinct images recovered",
 		Assumptions: []string{"persistence model: a completed fdatasync/fsync makes everything issued before it durable; afterwards every 512-byte sector of every write and every truncate independently did or did not reach the disk (plus sub-sector tearing of the meta write)",
 			"NoSync mode and the crash while initialising a brand-new file are excluded as the README does"},
